@@ -149,7 +149,21 @@ func runValidators(val interface{}, validators []validatorTag) error {
 	return nil
 }
 
+// validationPath holds the pointers, maps and slices being validated on the
+// way down to the current value: a pre-filled value may contain itself.
+type validationPath map[validationRef]struct{}
+
+type validationRef struct {
+	typ reflect.Type
+	ptr uintptr
+	len int
+}
+
 func tryRecursiveValidate(val reflect.Value, opts *options, validators []validatorTag) error {
+	return recursiveValidate(val, opts, validators, validationPath{})
+}
+
+func recursiveValidate(val reflect.Value, opts *options, validators []validatorTag, path validationPath) error {
 	var curr interface{}
 	if val.IsValid() {
 		curr = val.Interface()
@@ -166,14 +180,37 @@ func tryRecursiveValidate(val reflect.Value, opts *options, validators []validat
 		return nil
 	}
 
+	// every pointer, map and slice met while looking through val is noted for
+	// the time its contents are validated
+	for v := val; ; v = v.Elem() {
+		switch v.Kind() {
+		case reflect.Ptr, reflect.Map, reflect.Slice:
+			if !v.IsNil() {
+				ref := validationRef{typ: v.Type(), ptr: v.Pointer()}
+				if v.Kind() == reflect.Slice {
+					ref.len = v.Len()
+				}
+				if _, active := path[ref]; active {
+					// the value contains itself: it is being validated further up
+					return nil
+				}
+				path[ref] = struct{}{}
+				defer delete(path, ref)
+			}
+		}
+		if (v.Kind() != reflect.Ptr && v.Kind() != reflect.Interface) || v.IsNil() {
+			break
+		}
+	}
+
 	var err error
 	switch chaseValue(val).Kind() {
 	case reflect.Struct:
-		err = validateStruct(val, opts)
+		err = validateStruct(val, opts, path)
 	case reflect.Map:
-		err = validateMap(val, opts)
+		err = validateMap(val, opts, path)
 	case reflect.Array, reflect.Slice:
-		err = validateArray(val, opts)
+		err = validateArray(val, opts, path)
 	}
 
 	if err != nil {
@@ -182,7 +219,7 @@ func tryRecursiveValidate(val reflect.Value, opts *options, validators []validat
 	return tryValidate(val)
 }
 
-func validateStruct(val reflect.Value, opts *options) error {
+func validateStruct(val reflect.Value, opts *options, path validationPath) error {
 	val = chaseValue(val)
 	numField := val.NumField()
 	for i := 0; i < numField; i++ {
@@ -194,30 +231,30 @@ func validateStruct(val reflect.Value, opts *options) error {
 			continue
 		}
 
-		if err := tryRecursiveValidate(fInfo.value, fInfo.options, fInfo.validatorTags); err != nil {
+		if err := recursiveValidate(fInfo.value, fInfo.options, fInfo.validatorTags, path); err != nil {
 			return err
 		}
 	}
 	return nil
 }
 
-func validateMap(val reflect.Value, opts *options) error {
+func validateMap(val reflect.Value, opts *options, path validationPath) error {
 	val = chaseValue(val)
 	for _, key := range val.MapKeys() {
 		if err := tryValidate(key); err != nil {
 			return err
 		}
-		if err := tryRecursiveValidate(val.MapIndex(key), opts, nil); err != nil {
+		if err := recursiveValidate(val.MapIndex(key), opts, nil, path); err != nil {
 			return err
 		}
 	}
 	return nil
 }
 
-func validateArray(val reflect.Value, opts *options) error {
+func validateArray(val reflect.Value, opts *options, path validationPath) error {
 	val = chaseValue(val)
 	for i := 0; i < val.Len(); i++ {
-		if err := tryRecursiveValidate(val.Index(i), opts, nil); err != nil {
+		if err := recursiveValidate(val.Index(i), opts, nil, path); err != nil {
 			return err
 		}
 	}
